@@ -614,7 +614,7 @@ Proof.
   intros H Hk Hg Hc g Hin.
   destruct (N.eq_dec g X25519MLKEM768) as [->|Hne]; [|eapply keyshare_classical; eauto].
   revert Hk Hg Hin. destruct Hc as [Hw | [Hz [Hw | Hw]]]; gen_inv H; norm_b; intros Hk Hg Hin; resolve_ext Hk; resolve_ext Hg;
-  first [use_le0 L | use_ge1 L];
+  use_le0 L; use_ge1 L;
   rewrite ?in_app_iff in Hin; cbn [In opt] in Hin; rewrite ?in_opt in Hin; split_or Hin;
   try (exfalso; exact Hin); try (cbv in Hin; discriminate Hin); try (destruct Hin as [_ Hin]; cbv in Hin; discriminate Hin);
   find_in.
@@ -639,7 +639,7 @@ Lemma hybrid_has_share_holds_if rnd : ieee_laws rnd -> forall fuel tb v w sn np 
 Proof.
   intros L fuel tb v w sn np s salted p H ks gs Hk Hg Hc Hin.
   revert Hk Hg Hin. destruct Hc as [Hw | (Hz & Hw & Hw')]; gen_inv H; norm_b; intros Hk Hg Hin; resolve_ext Hk; resolve_ext Hg;
-  use_le0 L; try use_ge1 L;
+  use_le0 L; use_ge1 L;
   rewrite ?in_app_iff in Hin; cbn [In opt] in Hin; rewrite ?in_opt in Hin; split_or Hin;
   try (exfalso; exact Hin); try (cbv in Hin; discriminate Hin); try (destruct Hin as [_ Hin]; cbv in Hin; discriminate Hin);
   find_in.
@@ -648,12 +648,12 @@ Qed.
 Lemma nz_example : nz [0; 0; 0; 0; 0; 0; 0; 1].
 Proof.
   intros st i r (h & E & Hl) Hi.
-  destruct h as [|x0 h]; [cbn in E; subst st; vm_compute in Hi; injection Hi as <- _; discriminate|].
-  assert (Hlen : length (x0 :: h ++ st) = 8%nat) by (rewrite <- app_comm_cons, <- E; reflexivity).
-  cbn [length] in Hlen, Hl. rewrite app_length in Hlen.
-  assert (Hst : (length st < 8)%nat).
-  { destruct (Nat.eq_dec (length st) 8) as [E8|]; [|lia]. exfalso. assert (length h = 0)%nat by lia.
-    replace (S (length h)) with 1%nat in Hl by lia. discriminate Hl. }
-  unfold int63, uint64 in Hi.
-  destruct st as [|b0 [|b1 [|b2 [|b3 [|b4 [|b5 [|b6 [|b7 t]]]]]]]]; try discriminate Hi. cbn [length] in Hst. lia.
+  assert (Hlen : (length h + length st = 8)%nat) by (rewrite <- app_length, <- E; reflexivity).
+  destruct h as [|x h].
+  - cbn in E. subst st. vm_compute in Hi. injection Hi as <- _. discriminate.
+  - assert (Hst : (length st < 8)%nat).
+    { cbn [length] in Hlen, Hl.
+      destruct (length h) as [|[|[|[|[|[|[|n]]]]]]] eqn:Eh; try (vm_compute in Hl; discriminate Hl); lia. }
+    unfold int63, uint64 in Hi.
+    destruct st as [|b0 [|b1 [|b2 [|b3 [|b4 [|b5 [|b6 [|b7 t]]]]]]]]; try discriminate Hi. cbn [length] in Hst. lia.
 Qed.
